@@ -89,6 +89,7 @@ func runC03(c *Ctx) {
 		}
 		c.R.Check(n == 1, r8, "doTaskAttempt: post-lock stop check present", c.Pos(fn.Pos()), "ok", "the stop check after the processing lock is gone", true)
 	}
+	c09R10As(c, c.R.Rule("R13", "K3 (= C09.R10) v2: only the source read may end a pass quietly — a destination or processor error wrapping context.Canceled still fails the pass instead of dropping the batch and moving the position on with the next one", 1))
 	c01R3As(c, c.R.Rule("R12", "K3/K6 (= C01.R3) v1 fan-out: the original message is acked (and its position then persisted) only by the branch that brings the remaining-acks counter, initialised to len(out) when the message is fanned out, to zero", 3))
 	c01R4As(c, c.R.Rule("R10", "K3 (= C01.R4) v2: DestinationTask.Do returns nil only when every written position was confirmed — otherwise the restart position moves past records no destination confirmed", 4))
 	livePersisted(c, c.R.Rule("R11", "K8 (= C17.R7) the stored records the restart reads are persisted from the live instance or a complete copy", 10))
